@@ -1780,7 +1780,8 @@ class ScatterStep(BaseStep):
             workflow=self.workflow,
         )
         for token in port.token_list:
-            self.workflow.ports[port.name].put(token)
+            # Tokens already injected in the port are available: keep them, bypassing the filter
+            Port.put(self.workflow.ports[port.name], token)
 
     async def run(self) -> None:
         if len(self.input_ports) != 1:
